@@ -451,11 +451,34 @@ def handleC10 (toks : List String) : String :=
             let muK : Option (Rat × Rat) := match mu, k with
               | some m, some k => some (m, k)
               | _, _ => none
-            reply via (ecModelCS fw u.unit eps eps rtolSym muK cs c) (ecRead fr eps eps rtolSym)
+            reply via (ecModelCS fw u.unit eps eps rtolSym muK cs c) (ecReadAny fr eps eps rtolSym)
               (fun l => jList (l.map jFlt))
           | none => err "format"
         | none => err "format"
       | none => err "format"
+    | _ => err "format"
+  | "ecl" :: r =>
+    -- ecl <unit|-> <fW> <fR> <n> (<ij with % for a blank> <stored value>)^n: a record in the old `C` / `ij` format,
+    -- read by `ElasticConstants(model=…)` under the reading configuration
+    match pUnit r with
+    | some (u, n :: r1) =>
+      match n.toNat? with
+      | none => err "format"
+      | some n =>
+        let pEnt : P (String × Rat) := fun ts =>
+          match ts with
+          | ij :: v :: r => (parseRat? v).map (fun x => ((if ij = "." then "" else ij.replace "%" " ", x), r))
+          | _ => none
+        match pMany pEnt n r1 with
+        | some (es, []) =>
+          let (_, fr) := facTabs [] [(u.unit, u.fW, u.fR)]
+          let ent : String × Rat → DM Rat := fun e =>
+            .node [("stiffness", .node (("value", .leaf (.flt e.2)) :: unitEntry u.unit)), ("ij", .leaf (.str e.1))]
+          let t : DM Rat := .node [("elastic-constants", .node [("C", .list (es.map ent))])]
+          match ecReadAny fr eps eps rtolSym t with
+          | none => "{\"read\":null}"
+          | some l => "{\"read\":" ++ jList (l.map jFlt) ++ "}"
+        | _ => err "format"
     | _ => err "format"
   | "obj" :: r =>
     -- obj <12 rationals: a b c origin> <natoms> <3·natoms rationals: pos> <operations…>
